@@ -126,6 +126,10 @@ impl Interpreter {
 
     // a stmt by definition returns nothing
     pub(super) fn stmt(&mut self, stmt: &Stmt) -> Result<(), RuntimeError> {
+        #[cfg(feature = "verif")]
+        if !crate::verif::tick() {
+            return Err(crate::verif::limit_error(crate::verif::FUEL_MESSAGE));
+        }
         match stmt {
             Stmt::Expr(expr) => self.expr(expr.as_ref()).map(|_| ()),
             Stmt::If(if_stmt) => {
